@@ -39,7 +39,7 @@ UBSAN_HANDLERS = [
 TSAN_ATOMICS = ["load", "store", "exchange", "fetch_add", "fetch_sub",
                 "compare_exchange_strong", "compare_exchange_weak"]
 
-HARNESS = ["main.cc", "cases.cc", "conc.cc", "c12.cc", "c14a.cc", "c19.cc", "engine.cc", "ops.cc", "simsched.cc", "seams.cc", "tzif.cc"]
+HARNESS = ["main.cc", "cases.cc", "conc.cc", "c12.cc", "c14a.cc", "c19.cc", "engine.cc", "ops.cc", "simsched.cc", "seams.cc", "tzif.cc", "premain.cc"]
 # Harness TUs that call into cctz's header-inline code with the arguments under test get UBSan too.
 HARNESS_UBSAN = {"ops.cc"}
 
